@@ -543,6 +543,24 @@ pub mod bed {
             }
             out.push(r.map_err(|e| e.to_string()));
         }
+        // the same reader driven with a NEW records() iterator for every item (`while let Some(r) =
+        // reader.records().next()`) reads the same items: what a line is judged against belongs to the reader
+        let mut rdr = lib::Reader::new(bytes);
+        let mut k = 0usize;
+        loop {
+            let item = rdr.records().next();
+            let Some(item) = item else {
+                ensure!(k == out.len(), "BED reader over {:?}: one records() iterator yields {} items, a new records() iterator per item ends after {}", lossy(bytes), out.len(), k);
+                break;
+            };
+            ensure!(k < out.len(), "BED reader over {:?}: one records() iterator yields {} items, a new records() iterator per item yields more", lossy(bytes), out.len());
+            match (&out[k], &item) {
+                (Ok(a), Ok(b)) => ensure!(a == b, "BED reader over {:?}: item {} is {:?} with one records() iterator but {:?} with a new iterator per item", lossy(bytes), k, a, b),
+                (Err(_), Err(_)) => {}
+                (a, b) => fail!("BED reader over {:?}: item {} is {} with one records() iterator but {} with a new records() iterator per item", lossy(bytes), k, if a.is_ok() { "Ok" } else { "an error" }, if b.is_ok() { "Ok" } else { "an error" }),
+            }
+            k += 1;
+        }
         Ok(out)
     }
 
@@ -908,6 +926,24 @@ pub mod gff {
                 fail!("GFF reader does not terminate: more than {} items for a file of {} bytes: {:?}", cap, bytes.len(), lossy(bytes));
             }
             out.push(r.map_err(|e| e.to_string()));
+        }
+        // the same reader driven with a NEW records() iterator for every item (`while let Some(r) =
+        // reader.records().next()`) reads the same items: what a line is judged against belongs to the reader
+        let mut rdr = lib::Reader::new(bytes, d.lib());
+        let mut k = 0usize;
+        loop {
+            let item = rdr.records().next();
+            let Some(item) = item else {
+                ensure!(k == out.len(), "GFF reader over {:?}: one records() iterator yields {} items, a new records() iterator per item ends after {}", lossy(bytes), out.len(), k);
+                break;
+            };
+            ensure!(k < out.len(), "GFF reader over {:?}: one records() iterator yields {} items, a new records() iterator per item yields more", lossy(bytes), out.len());
+            match (&out[k], &item) {
+                (Ok(a), Ok(b)) => ensure!(a == b, "GFF reader over {:?}: item {} is {:?} with one records() iterator but {:?} with a new iterator per item", lossy(bytes), k, a, b),
+                (Err(_), Err(_)) => {}
+                (a, b) => fail!("GFF reader over {:?}: item {} is {} with one records() iterator but {} with a new records() iterator per item", lossy(bytes), k, if a.is_ok() { "Ok" } else { "an error" }, if b.is_ok() { "Ok" } else { "an error" }),
+            }
+            k += 1;
         }
         Ok(out)
     }
